@@ -201,7 +201,7 @@ def text_pairs(g, n):
     for _ in range(n):
         k = r.random()
         nl = r.choice([1, 1, 2, 3, 5, 8, 12, 30]) if k < 0.9 else r.choice([210, 260])
-        pool = [g.line() for _ in range(max(2, nl // 2))]
+        pool = [g.line((), ('cr',)) for _ in range(max(2, nl // 2))] + ([b'windows line\r', b'\r'] if r.random() < 0.3 else [])
         a = [r.choice(pool) for _ in range(nl)]
         b = list(a)
         for _ in range(r.choice([0, 1, 1, 2, 3])):
@@ -214,7 +214,7 @@ def text_pairs(g, n):
                 del b[r.randrange(len(b))]
             elif b:
                 i = r.randrange(len(b))
-                b[i] = b[i] + r.choice([b' ', b'\xff', b'x'])
+                b[i] = b[i] + r.choice([b' ', b'\xff', b'x', b'\r']) if not b[i].endswith(b'\r') or r.random() < 0.5 else b[i][:-1]
         ea, eb = b'\n'.join(a), b'\n'.join(b)
         if r.random() < 0.2:
             eb += b'\n'
